@@ -1,7 +1,7 @@
 ---------------------------- MODULE LifecycleMC ----------------------------
 EXTENDS Lifecycle, Json, IOUtils
 Valid(k, pe, b, st) == /\ (k = "thread" => b # "frozen")
-                       /\ (b = "linger" => (k # "thread" /\ pe = "F"))
+                       /\ (b = "linger" => (k # "thread" /\ (pe = "F" \/ k = "process")))
                        /\ (b = "slowres" => (k = "remote" /\ pe = "T"))
                        /\ (b = "unreb" => pe = "F")
                        /\ (b = "idle" => pe = "T")
